@@ -133,7 +133,7 @@ class Deps:
             return out
         handled = False
         for g in tg.repo:
-            if tg.by_name:
+            if tg.by_name or g.is_wrapped:
                 break
             key = ("call", self.t.fkey(g))
             if key in busy:
